@@ -71,6 +71,27 @@ def replay_schedule(ctx, ms, scheduler, case):
 
 
 # -- (ii) API-level scenarios ----------------------------------------------------
+class SharedInstances:
+    """One parser / serializer / JSON parser per run, shared by all threads (the statement shares the instances,
+    not only the context)."""
+
+    def __init__(self, xctx):
+        self.xp = XmlParser(context=xctx)
+        self.xs = XmlSerializer(context=xctx, config=SerializerConfig(xml_declaration=False))
+        self.jp = JsonParser(context=xctx)
+
+
+_SHARED: dict = {}
+
+
+def shared_of(c) -> SharedInstances:
+    """The shared instances of a run (created once per context, before any thread can race for them)."""
+    sh = _SHARED.get(id(c))
+    if sh is None or sh.xp.context is not c:
+        sh = _SHARED[id(c)] = SharedInstances(c)
+    return sh
+
+
 def api_ops(mod):
     doc_a = f'<Base xmlns="urn:a" xmlns:xsi="{XSI}" xsi:type="Derived"><x>1</x><y>s</y></Base>'
     doc_b = '<ns0:Other xmlns:ns0="urn:b"><ns0:z>q</ns0:z></ns0:Other>'
@@ -84,6 +105,11 @@ def api_ops(mod):
         "find_derived": lambda c: [cb.id_of(t) for t in list(c.find_types("{urn:a}Derived"))],
         # a MISS: looking a name up must stay a read (another thread may be walking the index)
         "find_unknown": lambda c: [cb.id_of(t) for t in list(c.find_types("{urn:x}Unknown"))],
+        # the same calls through instances shared by all threads (attribute _shared of the context of the run)
+        "shared_parse_noclass": lambda c: shared_of(c).xp.from_string(doc_b),
+        "shared_parse_noclass_a": lambda c: shared_of(c).xp.from_string(doc_a),
+        "shared_serialize": lambda c: shared_of(c).xs.render(obj_c),
+        "shared_json_noclass": lambda c: shared_of(c).jp.from_string('{"z": "k"}'),
         # wildcard namespace matching: XmlVar.match_namespace memoises per field, and the field metadata is shared
         "parse_wild": lambda c: XmlParser(context=c).from_string(
             '<w:WildOther xmlns:w="urn:wild" xmlns:e="urn:ext"><w:head>h</w:head><e:ext>t</e:ext><e:ext>u</e:ext></w:WildOther>', WildOther),
@@ -104,6 +130,7 @@ def explore_api(ctx, ms, scheduler, n_threads, combos, max_pre, limit, traces):
         for combo in combos:
             def run_once(prefix, combo=combo, warm=warm):
                 xctx = cb.fresh_context(warm, rec=True)
+                shared_of(xctx)
 
                 def mk(t, name):
                     def body():
@@ -133,6 +160,7 @@ def explore_api(ctx, ms, scheduler, n_threads, combos, max_pre, limit, traces):
                 # record for trace validation (the wildcard class lives outside the universe of Trace_ContextT)
                 if "parse_wild" in combo:
                     continue
+                r.trace = [(t, lab) for t, lab in r.trace if not lab.startswith(("p_", "m_"))]
                 log = r.xctx.xv_log
                 traces.append({
                     "id": f"api-{int(warm)}-{'+'.join(combo)}-{total}",
@@ -234,7 +262,10 @@ def run(ctx):
     # 3. systematic exploration of API-level operations + 4. trace validation
     traces: list = []
     names = ["parse_xsi", "parse_noclass", "serialize", "json_noclass", "find_derived", "find_unknown", "parse_wild"]
+    shared = ["shared_parse_noclass", "shared_parse_noclass_a", "shared_serialize", "shared_json_noclass"]
     pairs = [(a, b) for i, a in enumerate(names) for b in names[i:]]
+    # calls through SHARED parser / serializer instances: among themselves and against the cold-index operations
+    pairs += [(a, b) for i, a in enumerate(shared) for b in shared[i:]] + [(a, b) for a in shared[:2] for b in ("parse_xsi", "find_derived")]
     n = explore_api(ctx, ms, scheduler, 2, pairs, ctx.pick(2, 3), ctx.pick(40, 600), traces)
     triples = [("parse_xsi", "parse_noclass", "serialize"), ("parse_xsi", "find_derived", "json_noclass"),
                ("parse_noclass", "parse_noclass", "find_derived"), ("json_noclass", "find_unknown", "find_unknown")]
@@ -258,6 +289,7 @@ def explore_random(ctx, ms, scheduler, runs, traces):
         nthreads = rnd.choice([4, 6, 8, 16])
         combo = tuple(rnd.choice(names) for _ in range(nthreads))
         xctx = cb.fresh_context(rnd.random() < 0.3, rec=True)
+        shared_of(xctx)
 
         def mk(t, name):
             def body():
